@@ -41,7 +41,7 @@ RULE = ('nibp: header + every one of the 2^24 bit patterns of each 3-byte group 
         'nibh: every pattern of each 3-byte group of a header record (2^16 + 2 x 2^24) each followed by a probe particle '
         '(quick 1 background f32, thorough 4 backgrounds f32+f64), cells-per-dimension <= 0 excluded; '
         'sm: all sequences over {h1,h2,p1,p2} to depth 5 (quick) / 7 (thorough) incl. empty and particle-before-header, each run '
-        'from scratch in 12 output configurations + its parent history; states = histories, transitions = tree edges, '
+        'from scratch in 15 output configurations + its parent history; states = histories, transitions = tree edges, '
         'traces = histories whose full decode equals the sequential reference; '
         'rt: cpd {1,5,1875}(+{2,4047}) x corner cells x 7^3 offsets x 5^3 velocities x boxsize x velz x float type; '
         'non-trivial = distinct (layer, group, background, block, dtype) blocks with all field values distinct / '
@@ -163,6 +163,18 @@ def call(data, box, velz, dt, pmode='ret', vmode='ret'):
         elif mode == 'pre':
             bufs[name] = np.full((N + GUARD, 3), SENT, dtype=dtype)
             args[name] = bufs[name]
+        elif mode == 'half':      # non C-contiguous caller memory: one half of a shared (N, 6) phase-space buffer
+            if 'shared' not in bufs:
+                bufs['shared'] = np.full((N + GUARD, 6), SENT, dtype=dtype)
+            bufs[name] = bufs['shared'][:, :3] if name == 'posout' else bufs['shared'][:, 3:]
+            args[name] = bufs[name]
+        elif mode == 'fort':      # Fortran-ordered caller memory
+            bufs[name] = np.asfortranarray(np.full((N + GUARD, 3), SENT, dtype=dtype))
+            args[name] = bufs[name]
+        elif mode == 'skip':      # every other row of a taller array
+            bufs[name + '_tall'] = np.full((2 * (N + GUARD), 3), SENT, dtype=dtype)
+            bufs[name] = bufs[name + '_tall'][::2]
+            args[name] = bufs[name]
         elif mode == 'col':
             from astropy.table import Table
             t = Table()
@@ -197,7 +209,7 @@ def call(data, box, velz, dt, pmode='ret', vmode='ret'):
             else:
                 b = np.asarray(bufs[name])
                 ns.append(int(val))
-                out[name] = np.array(b[:val])
+                out[name] = np.ascontiguousarray(b[:val])
                 rest = b[val:]
                 if not (rest == SENT).all():
                     bad = np.nonzero((rest != SENT).any(axis=1))[0] + int(val)
@@ -228,7 +240,7 @@ def compare(got, exp, mag, eps, what):
 
 
 def bits_equal(a, b):
-    return a.shape == b.shape and a.dtype == b.dtype and np.array_equal(a.view(np.uint8), b.view(np.uint8)) if a.size else a.shape == b.shape
+    return a.shape == b.shape and a.dtype == b.dtype and np.array_equal(np.ascontiguousarray(a).view(np.uint8), np.ascontiguousarray(b).view(np.uint8)) if a.size else a.shape == b.shape
 
 
 def ndistinct(k):
@@ -328,7 +340,9 @@ CONFIGS = [('both', 'f4', 'ret', 'ret', False), ('both', 'f8', 'ret', 'ret', Fal
            ('pos-only', 'f8', 'ret', 'off', False), ('vel-only', 'f8', 'off', 'ret', False),
            ('prealloc', 'f4', 'pre', 'pre', False), ('prealloc', 'f8', 'pre', 'pre', False),
            ('prealloc-pos', 'f4', 'pre', 'ret', False), ('prealloc-vel-only', 'f8', 'off', 'pre', False),
-           ('column', 'f4', 'col', 'col', False), ('strided', 'f4', 'ret', 'ret', True)]
+           ('column', 'f4', 'col', 'col', False), ('strided', 'f4', 'ret', 'ret', True),
+           ('prealloc-halves', 'f4', 'half', 'half', False), ('prealloc-fortran', 'f8', 'fort', 'fort', False),
+           ('prealloc-everyother', 'f4', 'skip', 'skip', False)]
 RT_CONFIGS = 3
 
 
